@@ -37,6 +37,9 @@ pub struct Hooks {
     /// Offers an external command to the simulator just before it would be spawned; `fds`
     /// are the descriptors the child would inherit. `None` means: spawn it for real.
     pub sim_spawn: fn(program: &str, args: &[String], fds: Vec<(crate::ShellFd, OpenFile)>) -> Option<SimChild>,
+    /// Offers the program of `exec program args...` to the simulator just before the process
+    /// image would be replaced. A simulator that takes it does not return (it ends the run).
+    pub sim_exec: fn(program: &str, args: &[String], fds: Vec<(crate::ShellFd, OpenFile)>),
     /// Called before a simulated child's exit is awaited.
     pub before_process_wait: fn(pid: i32),
     /// Called before a simulated child's exit is polled without blocking.
@@ -135,9 +138,9 @@ impl AsyncReader {
             #[cfg(unix)]
             Self::Real(r) => r.read_to_string().await,
             Self::Sim(s) => {
-                let mut out = String::new();
-                io::Read::read_to_string(s, &mut out)?;
-                Ok(out)
+                let mut out = Vec::new();
+                io::Read::read_to_end(s, &mut out)?;
+                Ok(String::from_utf8_lossy(&out).into_owned())
             }
         }
     }
@@ -202,6 +205,17 @@ pub(crate) fn sim_spawn<SE: crate::extensions::ShellExtensions>(
         })
     };
     Some(crate::processes::ChildProcess::from_future(Box::pin(fut), Some(pid), pgid.or(Some(pid))))
+}
+
+/// Offers the program that `exec` is about to replace the process with to the simulator.
+pub fn sim_exec<SE: crate::extensions::ShellExtensions>(
+    context: &crate::commands::ExecutionContext<'_, SE>,
+    program: &str,
+    args: &[String],
+) {
+    if let Some(h) = hooks() {
+        (h.sim_exec)(program, args, context.iter_fds().collect());
+    }
 }
 
 /// Announces that a child's exit is about to be awaited.
